@@ -158,6 +158,11 @@ Section Filters.
 
   Definition diff_f (g:cfg) (conn meta:schema) : list op := compare_tables_f g conn meta.
 
+  (* the database with every object removed whose reflected name include_name rejects: "treated as absent" *)
+  Definition prune_table (c:table) : table :=
+    mkTable (t_name c) (fcols (t_name c) (t_cols c)) (fcons (t_name c) (t_cons c)) (ffks (t_name c) (t_fks c)) (fuuqs (t_name c) (t_uuqs c)).
+  Definition prune (conn:schema) : schema := map prune_table (ftables conn).
+
   (* ============================================================ the filter invocations, same skeleton *)
   Definition tO (o:obj) (r:bool) (c:option obj) : tcall :=
     TO (obj_ref o) r (has_cmp c) (obj_digest o) (match c with Some x => obj_digest x | None => [] end).
